@@ -142,6 +142,16 @@ Proof.
   apply dok_dnorm. exact OK.
 Qed.
 
+(* the same with parentheses around the whole expression *)
+Theorem both_roundtrip_wrapped w d : dok_both d = true ->
+  exists g, Pratt.parse op uop atom fn prec rassoc uprec g 0 (wrap w (dprint d)) = Some (erase (dnorm d), []).
+Proof.
+  intros OK. rewrite <- dprint_dnorm.
+  pose proof (parse_print op uop atom fn prec rassoc uprec INF assoc_consistent prec_lt_INF uprec_distinct _ (dok_dnorm d OK)) as G.
+  destruct (child_parses op uop atom fn prec rassoc uprec INF prec_lt_INF _ G w 0 []) as [g Hg]; [lia|exact I|].
+  exists g. rewrite app_nil_r in Hg. exact Hg.
+Qed.
+
 (* ---- values ---- *)
 Variable V : Type.
 Variable ev : op -> V -> V -> V.
